@@ -193,8 +193,9 @@ func (r *Runner) NextEvidence(t *rapid.T) []Evidence {
 	return out
 }
 
-// Block generates and executes one block. Returns false if an ABCI call panicked.
-func (r *Runner) Block(t *rapid.T) bool {
+// Begin generates the next block's BeginBlock request and executes it (callers that build a
+// block by hand continue with Deliver and Finish). Returns false if an ABCI call panicked.
+func (r *Runner) Begin(t *rapid.T) bool {
 	n := r.N
 	if r.Halted {
 		return true
@@ -226,6 +227,20 @@ func (r *Runner) Block(t *rapid.T) bool {
 	}
 	if r.H.AfterBegin != nil {
 		r.H.AfterBegin(req)
+	}
+	return true
+}
+
+// Block generates and executes one block. Returns false if an ABCI call panicked.
+func (r *Runner) Block(t *rapid.T) bool {
+	if r.Halted {
+		return true
+	}
+	if !r.Begin(t) {
+		return false
+	}
+	if r.Halted {
+		return true
 	}
 	ntx := 0
 	if r.O.MaxTxs > 0 {
